@@ -266,3 +266,24 @@ contract = REG.contract
 classdecl = REG.classdecl
 specfunc = REG.specfunc
 external = REG.external
+
+
+def opaque_callable(name, ret_ty):
+    """a callable whose body is outside the contract: each call returns a fresh value of ret_ty, is
+    appended to the ghost trace and recorded as ghost `<name>` (last result)"""
+    def f(E, *args, **kwargs):
+        v = E.fresh_val("ret_" + name, ret_ty) if ret_ty is not None and ret_ty.kind != "none" else None
+        E.ghost[name] = v
+        E.trace.append(("call", name, args, kwargs))
+        return v
+    f._specfunc = True
+    f.__name__ = name
+    return f
+
+
+def hook(cls, kind, attr=None):
+    """decorator: attach an engine hook to a declared class"""
+    def deco(fn):
+        REG.classes[cls].hooks[(kind, attr)] = fn
+        return fn
+    return deco
